@@ -1,7 +1,7 @@
 (* Extraction of the C18 model + monitors. ExtrOcamlBasic only; Z/N/nat/string stay Coq datatypes. *)
 From Coq Require Import Extraction ExtrOcamlBasic ZArith String List.
-From Ice Require Import Model.ConvTypes Model.PrioSpec Model.GatherSpec Model.GatherStateCycle.
+From Ice Require Import Model.ConvTypes Model.PrioSpec Model.GatherSpec Model.GatherMapped Model.GatherStateCycle.
 Extraction "model.ml" conv_witness failed all_ok
   supported_v6_partial parse_ip local_addrs local_ifaces listen_in_range look_of
-  gather_model corresponds C18_gather_checks C18_finish_checks mkCfg mkIface mkEnv mkVariant mkOcand mkOsock
+  gather_model mapped_model C18_mapped_checks corresponds C18_gather_checks C18_finish_checks mkCfg mkIface mkEnv mkVariant mkOcand mkOsock
   accept_init accept_op predict_op C18_cycle_checks.
